@@ -244,7 +244,7 @@ func runC05(c *Checker) {
 	// one of them does. The obligations of the delivery (C01), progress (C06), concurrency (C18),
 	// record-layer (C08, C02), framing (C16), stream-contract (C15) and codec (C19) checks are therefore part of this check, under
 	// "LAYER/<property>:<rule>" (their own not-decided parts stay not decided here).
-	importLayers(c, "C01", "C06", "C18", "C08", "C02", "C16", "C15", "C19")
+	importLayers(c, "C01", "C06", "C18", "C08", "C02", "C16", "C15", "C19", "C12")
 }
 
 // ruleLOCKBAL: in package pkg no mutex is acquired while it may already be held by the same
@@ -343,6 +343,86 @@ func ruleLOCKBAL(c *Checker, pkg string) {
 func runC11(c *Checker) {
 	ruleAcceptDial(c)
 	ruleC11Rest(c)
+	// "a fresh working connection is handed out" also needs the relay side of a (re)connect to
+	// recover: the mailboxes are re-created and the streams re-opened on every attempt (RETRY, as C05)
+	ruleRETRY(c)
+	ruleAcceptRetryable(c)
+}
+
+// ruleAcceptRetryable: a failed attempt to set up the next connection must not end the listener.
+// grpc leaves its accept loop on any error that does not say Temporary() == true, so (a) the
+// error of the connection constructors is handed out wrapped in *temporaryError and (b)
+// temporaryError.Temporary is the constant true.
+func ruleAcceptRetryable(c *Checker) {
+	w := c.w
+	acc := mboxFunc(c, "(*mailbox.Server).Accept")
+	tmp := mboxFunc(c, "(*mailbox.temporaryError).Temporary")
+	if acc == nil || tmp == nil {
+		return
+	}
+	bad := ""
+	n := 0
+	allInstrs(tmp, func(in ssa.Instruction) {
+		ret, ok := in.(*ssa.Return)
+		if !ok || ret.Block().Comment == "recover" {
+			return
+		}
+		n++
+		for _, v := range expandValues(ret.Results[0]) {
+			k, isK := v.(*ssa.Const)
+			if !isK || k.Value == nil || k.Value.ExactString() != "true" {
+				bad = w.canonFB(v)
+			}
+		}
+	})
+	c.decide(bad == "" && n > 0, "EXCL", "temporaryError.Temporary|always true", tmp.Pos(), "returns the constant true",
+		"temporaryError.Temporary can return "+bad+": grpc treats such an Accept error as permanent and stops serving - no connection is ever handed out again")
+	// (a)
+	for _, call := range findCalls(acc, func(ci ssa.CallInstruction) bool {
+		sc := ci.Common().StaticCallee()
+		return sc != nil && (sc.Name() == "NewServerConn" || sc.Name() == "RefreshServerConn") && w.pkgShort(sc) == targetMbox
+	}) {
+		cv, _ := call.(ssa.Value)
+		if cv == nil {
+			continue
+		}
+		var errv ssa.Value
+		for _, r := range *cv.Referrers() {
+			if ex, ok := r.(*ssa.Extract); ok && ex.Index == 1 {
+				errv = ex
+			}
+		}
+		if errv == nil {
+			c.fail("EXCL", "Accept|error of "+calleeLabel(call.Common())+" is temporary", instrPos(call), "the constructor's error is not looked at")
+			continue
+		}
+		badRet := ""
+		nLeg := 0
+		allInstrs(acc, func(in ssa.Instruction) {
+			ret, ok := in.(*ssa.Return)
+			if !ok || ret.Block().Comment == "recover" {
+				return
+			}
+			if !hasFact(ret.Block(), func(f Fact) bool { return factRel(f, isValue(errv), isNilConst) == "!=" }) {
+				return
+			}
+			nLeg++
+			for _, v := range expandValues(ret.Results[len(ret.Results)-1]) {
+				mi, ok := v.(*ssa.MakeInterface)
+				okk := false
+				if ok {
+					if nn := namedOf(deref(mi.X.Type())); nn != nil && nn.Obj().Name() == "temporaryError" {
+						okk = true
+					}
+				}
+				if !okk {
+					badRet = w.pos(instrPos(ret))
+				}
+			}
+		})
+		c.decide(badRet == "" && nLeg > 0, "EXCL", "Accept|error of "+calleeLabel(call.Common())+" is temporary", instrPos(call), "returned wrapped in *temporaryError",
+			"Accept hands out the error of "+calleeLabel(call.Common())+" at "+badRet+" without the temporaryError wrapper: one failed connection attempt ends the grpc server")
+	}
 }
 
 // ruleAcceptDial: EXCL and the SIDFRESH obligations of Server.Accept / Client.Dial
